@@ -9,7 +9,7 @@ INVS = ['TreeWellFormed', 'LeavesInOrder', 'NoDegenerateLayer', 'Emit']
 NOFAULT = '{[kind |-> "none", slot |-> 0, when |-> ""]}'
 TEXTCC = '<<"crlf", "lf", "trailws", "dots", "eq", "from", "bdry", "len75", "len76", "len77", "long", "utf8", "bin", "nul", "empty", "oneline", "rand">>'
 BASE = dict(MAXP='2', MAXE='1', MAXA='1', ENCS='{"qp", "b64", "8bit"}', PENCS='{""}', FENCS='{""}',
-            CCS=TEXTCC, PRODS='<<"string", "writer", "chunk3">>', SRCS='<<"seeker", "reader", "file", "iofs">>',
+            CCS=TEXTCC, PRODS='<<"string", "writer", "chunk3">>', SRCS='<<"seeker", "reader", "file", "iofs", "buffer">>',
             ROTS='{0}', BOUNDARIES='{""}', DELS='{0}', HDRS='{<<>>}', PDESCS='{""}', FDESCS='{""}', FNAMES='{""}', FCIDS='{""}', OPSEQS='{<<"WriteTo">>}', FAULTS=NOFAULT, ROUNDTRIP='{FALSE}',
             SMIMES='{[key |-> "", inter |-> FALSE]}')
 
@@ -157,7 +157,7 @@ KEYS4 = '{[key |-> k, inter |-> i] : k \\in {"rsa", "ecdsa", "rsa384", "ecdsa384
 KEYS2 = '{[key |-> "rsa", inter |-> TRUE], [key |-> "ecdsa", inter |-> FALSE]}'
 KEYS2B = '{[key |-> "rsa", inter |-> FALSE], [key |-> "ecdsa", inter |-> TRUE]}'
 SINVS = ['Verifies', 'CounterClean', 'OneSignature', 'TypeOK', 'SEmit']
-INVS_BY_BASE = {'Smime': SINVS}
+INVS_BY_BASE = {'Smime': SINVS, 'MsgCalls': ['IdsUnique', 'LeafIdsAreCalls', 'TreeWellFormed', 'Emit']}
 SPEC_BY_BASE = {'Smime': 'SSpec'}
 SENS_INVS = ['Verifies', 'CounterClean']
 SHDR = ["genempty", "genmulti", "toignore", "ccignore", "ccsome", "preform", "subject", "gen", "fromname"]
@@ -193,6 +193,13 @@ SENSITIVITY = {'C08': [(d, 'Smime', scfg(**dict(SDEV, **{d: 'TRUE'})), 'CounterC
                                  'DEV_FreshInnerBoundary', 'DEV_CountSignaturePart']]}
 
 
+ALLCALLS = '{"SetBodyP", "SetBodyH", "AddAltP", "AddAltH", "Del1", "Del2", "Embed", "Attach", "UnsetAtt", "UnsetEmb", "UnsetParts", "DropFirstAtt", "DropFirstEmb", "RevAtt"}'
+CORECALLS = '{"SetBodyP", "AddAltH", "Del1", "Embed", "Attach", "UnsetAtt", "RevAtt"}'
+# sequences of builder calls (MsgCalls.tla): the calls are executed on a real Msg, the expectation is the specification's final state
+STAGES['C01']['quick'] += [('call-sequences-len3', 'MsgCalls', dict(MAXCALLS='3', CALLS=ALLCALLS, ENCS='{"qp"}')),
+                           ('call-sequences-len4-core', 'MsgCalls', dict(MAXCALLS='4', CALLS=CORECALLS, ENCS='{"b64"}'))]
+STAGES['C01']['thorough'] += [('call-sequences-len4', 'MsgCalls', dict(MAXCALLS='4', CALLS=ALLCALLS, ENCS='{"qp"}')),
+                              ('call-sequences-len5-core', 'MsgCalls', dict(MAXCALLS='5', CALLS=CORECALLS, ENCS='{"qp", "b64"}'))]
 STAGES['C02']['quick'].append(
     ('signed-file-options', 'MimeBuild', cfg(MAXP='1', MAXE='1', MAXA='1', ENCS='{"qp", "b64"}', CCS='<<"crlf">>', SMIMES='{[key |-> "ecdsa", inter |-> FALSE]}',
                                               FDESCS='{"", "utf8", "crlf"}', FNAMES='{"", "utf8", "quotes"}', PDESCS='{"", "utf8"}')))
